@@ -127,8 +127,18 @@ def declared_callers(api):
 
 @st.composite
 def cases(draw):
-    tv = draw(pyrt.typed_values(cfg_kw=C13_CFG, per_spec=(4, 8), omit_callers=None))
+    tv = draw(pyrt.typed_values(cfg_kw=C13_CFG, per_spec=(4, 8), omit_callers=None, bias_fn=annotated_members))
     return tv
+
+
+def annotated_members(idx):
+    """Fields and tags that carry an annotation themselves: values prefer to set / select them."""
+    out = {'fields': set(), 'tags': set(), 'subtypes': set()}
+    for n, d in idx.types():
+        for m in d.get('fields', d.get('tags')):
+            if m.get('annots'):
+                out['fields' if d['k'] == 'struct' else 'tags'].add((n, d['name'], m['name']))
+    return out
 
 
 def run(case, rec):
